@@ -1,12 +1,12 @@
 package main
 
 import (
-	"path/filepath"
 	"bufio"
 	"fmt"
 	"go/ast"
 	"go/parser"
 	"os"
+	"path/filepath"
 	"regexp"
 	"strconv"
 	"strings"
@@ -14,25 +14,26 @@ import (
 
 // Contract is the parsed //@ block of one function.
 type Contract struct {
-	Func      string
-	Pure      bool
-	Reads     []string
-	Modifies  []string
-	Requires  []Clause
-	Ensures   []Clause
+	Func           string
+	Pure           bool
+	Reads          []string
+	Modifies       []string
+	Requires       []Clause
+	Ensures        []Clause
 	EnsuresOnPanic []Clause
-	LoopInv   map[int][]Clause
-	LoopDec   map[int]ast.Expr
-	Overflow  bool
-	MayPanic  bool
-	Watch     bool
-	Recovers  bool
-	SrcLine   int
-	AtCallDo  map[string][]GhostSet // ghost assignments right after a call to the named callee
-	LoopUse   map[int][]ast.Expr  // manual axiom instantiations at loop heads
-	AtCall    map[string][]Clause // proof hints: assertions right after a call to the named callee
-	AtCallBefore map[string][]Clause // obligations in the state right before a call to the named callee
-	Unreachable map[string]bool // covers the contract declares dead on purpose (a deliberately restricted case)
+	LoopInv        map[int][]Clause
+	LoopDec        map[int]ast.Expr
+	Overflow       bool
+	MayPanic       bool
+	CallbacksReady bool // `callbacks_ready`: a contracted parameterless literal passed as an argument must have its preconditions established at that call
+	Watch          bool
+	Recovers       bool
+	SrcLine        int
+	AtCallDo       map[string][]GhostSet // ghost assignments right after a call to the named callee
+	LoopUse        map[int][]ast.Expr    // manual axiom instantiations at loop heads
+	AtCall         map[string][]Clause   // proof hints: assertions right after a call to the named callee
+	AtCallBefore   map[string][]Clause   // obligations in the state right before a call to the named callee
+	Unreachable    map[string]bool       // covers the contract declares dead on purpose (a deliberately restricted case)
 }
 
 // GhostSet is `ghost = expr` performed after a call.
@@ -204,10 +205,10 @@ func parseSpecExpr(text string) (ast.Expr, error) {
 
 // UnitHeader is the `//@ unit <name> key=value ...` line that opens a verification unit in a contracts file.
 type UnitHeader struct {
-	Name   string
-	File   string
-	Line   int
-	Attrs  map[string]string
+	Name  string
+	File  string
+	Line  int
+	Attrs map[string]string
 }
 
 var unitAttrRe = regexp.MustCompile("([a-z_]+)=(`[^`]*`|\\S+)")
@@ -525,6 +526,9 @@ func parseContracts(path string, unit string) (map[string]*Contract, error) {
 			}
 		case "at":
 			// at call <callee> assert <expr>
+			if cur != nil && externContracts[cur.Func] {
+				return nil, fmt.Errorf("%s:%d: `at call` clause under extern %s: it belongs to the function whose body makes the call", path, ln, cur.Func)
+			}
 			if len(fields) >= 7 && fields[1] == "call" && fields[3] == "do" && strings.Contains(line, " = ") {
 				eq := strings.Index(line, " = ")
 				lhs := strings.TrimSpace(line[strings.Index(line, " do ")+4 : eq])
@@ -594,6 +598,8 @@ func parseContracts(path string, unit string) (map[string]*Contract, error) {
 			cur.Overflow = true
 		case "may_panic":
 			cur.MayPanic = true
+		case "callbacks_ready":
+			cur.CallbacksReady = true
 		case "watch":
 			// a contract that instruments calls the code is NOT expected to make (counting header edits, say): it is not
 			// reported as unused when no such call exists
